@@ -367,6 +367,47 @@ func runC29(c *Ctx) {
 			}
 			return false, false
 		})
+		// the library form of the search: i := slices.Index(list, *working); i >= 0 means
+		// list[i] == *working, i < 0 means the working ID is not in the list
+		var idxObj types.Object
+		ast.Inspect(fn.Body, func(n ast.Node) bool {
+			as, ok := n.(*ast.AssignStmt)
+			if !ok || len(as.Lhs) != 1 || len(as.Rhs) != 1 {
+				return true
+			}
+			call, ok := an.Unparen(as.Rhs[0]).(*ast.CallExpr)
+			if !ok || len(call.Args) != 2 {
+				return true
+			}
+			if f, _ := an.Callee(info, call).(*types.Func); f != nil && f.Pkg() != nil && f.Pkg().Path() == "slices" && f.Name() == "Index" && isList(call.Args[0]) && isDerefW(call.Args[1]) {
+				idxObj = lsIdentObj(info, as.Lhs[0])
+			}
+			return true
+		})
+		idxFound := func(cond ast.Expr) (bool, bool) { // (matched, found-when-true)
+			be, ok := an.Unparen(cond).(*ast.BinaryExpr)
+			if !ok || idxObj == nil || lsIdentObj(info, be.X) != idxObj {
+				return false, false
+			}
+			v, isC := an.ConstInt(info, be.Y)
+			if !isC {
+				return false, false
+			}
+			switch {
+			case be.Op == token.GEQ && v == 0, be.Op == token.GTR && v == -1, be.Op == token.NEQ && v == -1:
+				return true, true
+			case be.Op == token.LSS && v == 0, be.Op == token.LEQ && v == -1, be.Op == token.EQL && v == -1:
+				return true, false
+			}
+			return false, false
+		}
+		if idxObj != nil {
+			if searchKey == nil {
+				searchKey = idxObj
+			}
+			more, _, _ := condEdges(fn, idxFound)
+			eqEdges = append(eqEdges, more...)
+		}
 		// found flags: locals set to true only behind eqEdges
 		flags := map[types.Object]bool{}
 		for _, h := range fn.FindNodes(func(n ast.Node) bool {
@@ -389,6 +430,9 @@ func runC29(c *Ctx) {
 			}
 		}
 		notFound, foundE, _ := condEdges(fn, func(cond ast.Expr) (bool, bool) {
+			if m, foundWhenTrue := idxFound(cond); m {
+				return true, !foundWhenTrue
+			}
 			x, neg := negated(cond)
 			if o := lsIdentObj(info, x); o != nil && flags[o] {
 				return true, neg // `!found` passes on true; `found` passes on false
